@@ -380,6 +380,14 @@ def run_case(case, ctx):
             if name in ("check", "in", "hashes", "check_alt") and ki % len(keys) >= len(pool):
                 absent_query = True
             ctx.op("read", name, ki % len(keys), dep)
+        # systematic sweep: every pool key is looked up once more (check and `in`), the state compared around the whole sweep
+        before = t.snap()
+        for k in pool:
+            ctx.call(NX, t.reads[0][1], k, 1)
+            ctx.call(NX, t.reads[1][1], k, 1)
+        after = t.snap()
+        ctx.check("C19.readonly", before == after, lambda: f"{t.kind}: state changed by looking every pool key up (check / in): "
+                                                           f"{[i for i, (a, b) in enumerate(zip(before, after)) if a != b]}")
         for name in used:
             ctx.feat("read_%s_%s" % (t.kind, name))
         nt = t.nonempty and len(used) >= 3 and absent_query
